@@ -45,7 +45,30 @@ def shard(args):
     part = par.Part()
     W = alphabet.wide(thorough=(tier == "thorough"))
     fillers = bases.FILLERS if tier == "thorough" else ["distinct", "seeded"]
-    for filler, base in bases.base_ibans(country, fillers):
+    blist = bases.base_ibans(country, fillers)
+    sp = bases.self_prefixed(country)
+    if sp:
+        blist.append(("selfprefix", bases.iban_text(country, sp)))
+    # a base rich in the letters that non-ASCII characters upper-case to (I, S, F, T, L)
+    c0 = reg.countries()[country]
+    cl0 = bases.classes_of(c0)
+    rich = "".join(("ISFTL"[i % 5] if k in "ac" else reg.CLASS_CHARS[k][(i + 1) % 10]) for i, k in enumerate(cl0))
+    if rich not in {b[4:] for _, b in blist}:
+        blist.append(("foldrich", bases.iban_text(country, rich)))
+    for filler, base in blist:
+        if filler in ("selfprefix", "foldrich"):
+            gens = [families.fold_variants(base), families.iban_checkpairs(base)]
+            part.count(base, nontrivial=False)
+            for gen in gens:
+                for fam, text in gen:
+                    part.count(text, nontrivial=(text != base), foreign=(text[:2] != country))
+                    ok, sig, exp, obs = judge(text)
+                    part.stat("family:" + fam.split(":")[0])
+                    if not ok:
+                        part.violation(f"{sig} [{fam}]", {"kind": "iban_text", "text": text,
+                                       "how": f"{fam} from base {filler} {base}"}, exp, obs)
+            part.stat("bases")
+            continue
         gens = [families.single_edits(base, W), families.iban_lengths(base),
                 families.iban_prefixes(base), families.iban_checkpairs(base)]
         if filler == "distinct":
